@@ -171,7 +171,7 @@ func (u *Unit) qvarSort(s string) (Sort, types.Type) {
 		return SBool, types.Typ[types.Bool]
 	case "ref", "type", "fn":
 		return SInt, nil
-	case "strmap_int", "strmap_str", "strset", "strrel":
+	case "intmap", "strmap_int", "strmap_str", "strset", "strrel":
 		return specSort(s), nil
 	case "iface", "any":
 		return SIface, types.NewInterfaceType(nil, nil)
@@ -345,6 +345,9 @@ func (u *Unit) evalIdent(env *SpecEnv, name string) SV {
 	}
 	if v, ok := env.names[name]; ok {
 		return v
+	}
+	if v, ok := env.cnt["gv!"+name]; ok {
+		return SV{V: v} // specification-only loop variable
 	}
 	if env.inOld {
 		if v, ok := u.entryParams[name]; ok {
@@ -798,6 +801,31 @@ func (u *Unit) evalCall(env *SpecEnv, x *ast.CallExpr) SV {
 			cur = IntLit(0)
 		}
 		return SV{V: cur, Typ: intT}
+	case "boundmethod":
+		// boundmethod(ev, i, recv, "Name"): argument i of the last call of event ev is
+		// the method value recv.Name (a bound-method closure), decided syntactically
+		if len(x.Args) != 4 {
+			return env.fail("boundmethod(ev, i, recv, \"Name\")")
+		}
+		id, _ := x.Args[0].(*ast.Ident)
+		bl, _ := x.Args[1].(*ast.BasicLit)
+		nm, _ := x.Args[3].(*ast.BasicLit)
+		if id == nil || bl == nil || nm == nil {
+			return env.fail("boundmethod(ev, i, recv, \"Name\")")
+		}
+		n, _ := strconv.Atoi(bl.Value)
+		want, _ := strconv.Unquote(nm.Value)
+		as, ok := env.st.lastArgs[id.Name]
+		if !ok || n >= len(as) {
+			return SV{V: False, Typ: boolT}
+		}
+		cl, isCl := as[n].(*Closure)
+		if !isCl || !strings.HasSuffix(cl.fn.Name(), "$bound") || strings.TrimSuffix(cl.fn.Name(), "$bound") != want || len(cl.binds) != 1 {
+			return SV{V: False, Typ: boolT}
+		}
+		recv := argT(2)
+		bound := u.lower(env.st, cl.binds[0], nil)
+		return SV{V: Eq(bound, recv), Typ: boolT}
 	case "lastarg":
 		id, _ := x.Args[0].(*ast.Ident)
 		n, _ := strconv.Atoi(x.Args[1].(*ast.BasicLit).Value)
